@@ -13,6 +13,9 @@ import (
 
 // TestDev runs a slice of the case list in-process and prints an overview (development aid, not a verdict).
 func TestDev(t *testing.T) {
+	if os.Getenv("C28_DEV") == "" {
+		t.Skip("development aid; set C28_DEV=1 (and GODEBUG as in the engine's Meta.Env)")
+	}
 	n := 300
 	if v := os.Getenv("C28_N"); v != "" {
 		n, _ = strconv.Atoi(v)
